@@ -371,11 +371,11 @@ PROP_TIES = {
     "C07": _ties("Scalar_MultiplyAdd", "Scalar_Invert", "Scalar_Set", "NewScalar") + ["EdVerif.Props.Regen.C07"],
     "C08": _ties("Scalar_Bytes", "Scalar_bytes", "Scalar_SetCanonicalBytes", "Scalar_SetUniformBytes", "Scalar_SetBytesWithClamping", "Scalar_setShortBytes", "isReduced")
            + ["EdVerif.Props.Regen.ScalarSetters"],
-    "C09": _ties("field_Element_Invert", "field_Element_Pow22523", "field_Element_Negate", "field_Element_Absolute"),
+    "C09": _ties("field_Element_Invert", "field_Element_Pow22523", "field_Element_Negate", "field_Element_Absolute", "field_Element_IsNegative"),
     "C10": _ties("field_Element_Equal", "field_Element_Negate", "field_Element_Absolute", "field_Element_Bytes", "field_Element_bytes", "field_Element_IsNegative")
            + ["EdVerif.Props.Regen.C10"],
     "C11": ["EdVerif.Gen.FormulaTies", "EdVerif.Props.Regen.C11"],          # every function, every aliasing pattern
-    "C12": ["EdVerif.Gen.FormulaTies"],                                      # every operation of the API machine
+    "C12": ["EdVerif.Props.Regen.C12"],                                      # every writer of a Point maps valid inputs to a valid result
     "C13": _ties("Point_SetExtendedCoordinates", "Point_extendedCoordinates", "isOnCurve") + ["EdVerif.Props.Regen.C13"],
     "C14": _ties("Point_SetBytes", "Point_SetExtendedCoordinates", "Scalar_SetCanonicalBytes", "Scalar_SetUniformBytes", "Scalar_SetBytesWithClamping")
            + ["EdVerif.Props.Regen.SetBytes", "EdVerif.Props.Regen.SetExt", "EdVerif.Props.Regen.ScalarSetters"],
@@ -424,3 +424,10 @@ PT_TIE_NOTE = ("thorough tier: for 19 point-layer functions and 10 aliased varia
 for _pid in ("C02", "C11", "C12"):
     PROPS[_pid]["modules_thorough"] = list(PROPS[_pid].get("modules_thorough", [])) + ["EdVerif.Ssa.Tie.MainPt"]
     PROPS[_pid]["trusted_extra"] = list(PROPS[_pid].get("trusted_extra", [])) + [PT_TIE_NOTE]
+
+PT2_TIE_NOTE = ("thorough tier: EdVerif/Ssa/Tie/MainPt2 proves, on arbitrary heaps, that executing the regenerated SSA of (*field.Element).Bytes / IsNegative / Equal / Absolute / Invert and of "
+                "(*Point).Equal, isOnCurve, (*Point).SetExtendedCoordinates (pair form: nil-or-receiver, final receiver) computes exactly the T5 definitions / the model's Fe.bytes, "
+                "Fe.isNegative - for these functions neither T1 nor T5 is trusted")
+for _pid in ("C06", "C09", "C10", "C13"):
+    PROPS[_pid]["modules_thorough"] = list(PROPS[_pid].get("modules_thorough", [])) + ["EdVerif.Ssa.Tie.MainPt2"]
+    PROPS[_pid]["trusted_extra"] = list(PROPS[_pid].get("trusted_extra", [])) + [PT2_TIE_NOTE]
